@@ -607,6 +607,14 @@ def equivalent_reg_calls(pol, reg):
         out.append(("allowed algorithms as a one-shot iterator", lambda: call(d(), supported_pub_key_algs=lambda l: iter(list(l)))))
         out.append(("allowed algorithms as a generator", lambda: call(d(), supported_pub_key_algs=lambda l: (x for x in list(l)))))
         out.append(("allowed algorithms as a set", lambda: call(d(), supported_pub_key_algs=lambda l: set(l))))
+    else:
+        # no list given: the documented default list, passed explicitly - as a list, and as one-shot iterables of its members
+        import inspect
+        dflt = inspect.signature(webauthn.verify_registration_response).parameters["supported_pub_key_algs"].default
+        if isinstance(dflt, (list, tuple)) and dflt:
+            out.append(("the default algorithm list passed explicitly", lambda: call(d(), supported_pub_key_algs=list(dflt))))
+            out.append(("the default algorithm list passed as a one-shot iterator", lambda: call(d(), supported_pub_key_algs=iter(list(dflt)))))
+            out.append(("the default algorithm list passed as a generator of plain integers", lambda: call(d(), supported_pub_key_algs=(int(x) for x in list(dflt)))))
     if pol.roots:
         out.append(("roots in a read-only mapping proxy", lambda: call(d(), pem_root_certs_bytes_by_fmt=lambda m: types.MappingProxyType(dict(m)))))
         out.append(("roots in a ChainMap", lambda: call(d(), pem_root_certs_bytes_by_fmt=lambda m: collections.ChainMap({}, dict(m)))))
